@@ -8,6 +8,7 @@ import (
 	"regexp"
 	"runtime"
 	"strconv"
+	"unicode/utf16"
 	"unicode/utf8"
 
 	"github.com/ohler55/ojg"
@@ -518,6 +519,27 @@ func (p *parser) readEscStr(start int, term byte) string {
 					b = p.buf[p.pos]
 					p.pos++
 					r = (r << 4) | rune(p.readHex(b))
+				}
+				if utf16.IsSurrogate(r) && p.pos+6 <= len(p.buf) && p.buf[p.pos] == '\\' && p.buf[p.pos+1] == 'u' {
+					// A surrogate pair, as in JSON, is one code point.
+					var r2 rune
+					ok := true
+					for _, h := range p.buf[p.pos+2 : p.pos+6] {
+						switch {
+						case '0' <= h && h <= '9':
+							r2 = r2<<4 | rune(h-'0')
+						case 'a' <= h && h <= 'f':
+							r2 = r2<<4 | rune(h-'a'+10)
+						case 'A' <= h && h <= 'F':
+							r2 = r2<<4 | rune(h-'A'+10)
+						default:
+							ok = false
+						}
+					}
+					if dr := utf16.DecodeRune(r, r2); ok && dr != utf8.RuneError {
+						r = dr
+						p.pos += 6
+					}
 				}
 				buf = utf8.AppendRune(buf, r)
 			default:
